@@ -200,8 +200,9 @@ def correspondence(ctx):
                         lags, wl = [], []
                 else:
                     lags, wl = rand_lags(rng, cells, info, unit)
+                snap = w_cells(tri.cells)      # by value, BEFORE the call
                 res = call(make_right_triangle, tri, dev_lags=lags, dev_lag_unit=unit)
-                req = {"op": op, "cells": w_cells(tri.cells), "lags": wl, "unit": unit}
+                req = {"op": op, "cells": snap, "lags": wl, "unit": unit}
                 in_domain = not info["broken"] and unit not in ("timedelta", "weeks")
                 ctx.count(f"rightTri/unit={unit}")
                 ctx.count("rightTri/lags=" + ("own" if lags is None else "list"))
@@ -210,8 +211,9 @@ def correspondence(ctx):
                 tri = Triangle(cells)
                 hist = rng.random() < 0.15
                 dates = rand_dates(rng, cells, info, hist)
+                snap = w_cells(tri.cells)
                 res = call(make_right_diagonal, tri, dates, include_historic=hist)
-                req = {"op": op, "cells": w_cells(tri.cells), "dates": [w_date(d) for d in dates], "hist": hist}
+                req = {"op": op, "cells": snap, "dates": [w_date(d) for d in dates], "hist": hist}
                 in_domain = not info["broken"] and not hist
                 ctx.count(f"rightDiag/hist={hist}")
             elif op == "fill":
@@ -229,8 +231,9 @@ def correspondence(ctx):
                 if n_evals == 1 and rng.random() < 0.1:
                     resn = None                                                     # domain edge: TypeError
                 none = rng.random() < 0.5
+                snap = w_cells(tri.cells)
                 res = call(fill_forward_gaps, tri, eval_resolution=resn, fill_with_none=none)
-                req = {"op": op, "cells": w_cells(tri.cells), "res": resn, "none": none}
+                req = {"op": op, "cells": snap, "res": resn, "none": none}
                 in_domain = not (resn is None and n_evals == 1)
                 ctx.count("fill/res=" + ("inferred" if resn is None else "compatible" if resn in comp else "incompatible"))
                 ctx.count(f"fill/none={none}")
@@ -253,13 +256,21 @@ def correspondence(ctx):
                 if n_evals == 1 and rng.random() < 0.1:
                     resn = None
                 min_lag = rng.choice([0, 0, 0, 1, 2, 3, 6, -1, -2, -3, -5, -11, -12])
+                snap = w_cells(tri.cells)
                 res = call(backfill, tri, static_fields=statics, eval_resolution=resn, min_dev_lag=min_lag)
-                req = {"op": op, "cells": w_cells(tri.cells), "statics": statics, "res": resn, "minLag": min_lag}
+                req = {"op": op, "cells": snap, "statics": statics, "res": resn, "minLag": min_lag}
                 in_domain = not (resn is None and n_evals == 1) and statics != ["no_such_field"]
                 ctx.count("backfill/res=" + ("inferred" if resn is None else "explicit"))
                 ctx.count("backfill/minLag=" + ("neg" if min_lag < 0 else "zero" if min_lag == 0 else "pos"))
             d = impl_dump(res)
             req["impl"] = d.get("ok")
+            # the observed data is judged against the snapshot taken before the call: the operator must
+            # not modify the input triangle's own cell objects either (shared values dicts!)
+            after = w_cells(tri.cells)
+            if after != snap:
+                changed = [{"before": b, "after": a} for b, a in zip(snap, after) if a != b][:3]
+                ctx.fail(f"{op}: the input triangle's cells were modified in place by the call",
+                         {k: v for k, v in req.items() if k != "impl"}, {"changed": changed})
             for k in ("slices", "kind", "shape"):
                 ctx.count(f"{op}/{k}={info[k]}")
             ctx.count(f"{op}/impl=" + ("ok" if "ok" in d else "err"))
